@@ -112,6 +112,29 @@ def rule_fragment_len(ctx, P):
             r.ok('get_fragment_size(buf) == sizes stored in the header + 80 (0, 1, 4, 80, 4096, 2^20)', func=g.name, loc=g.mod.src)
     r.require_min(1)
 
+def rule_encode_reports_len(ctx, P):
+    r = ctx.rule('R08f', 'encode reports as fragment_len what get_fragment_size reads from a fragment it just wrote (header + payload + backend metadata)',
+                 'a length recomputed as header + payload drops the backend metadata bytes: it disagrees with the size query for every back end that stores metadata')
+    f = P.fn('liberasurecode_encode')
+    C = Canon(P, f)
+    lp = [n_ for n_, (ty_, pn_) in enumerate(f.params) if ty_ == 'i64*']
+    if not lp:
+        raise AnalysisBroken('anchor vanished: liberasurecode_encode has no fragment_len output')
+    pn = f.params[lp[-1]][1]
+    sts = [i for i in f.insts() if i.op == 'store' and strip_ptr_casts(f, i.ops[1]) == pn]
+    if not sts:
+        r.fail('encode stores fragment_len', func=f.name, sig='fragment_len never written', loc=f.mod.src, msg='liberasurecode_encode never stores *fragment_len')
+    for st in sts:
+        v = C.val(strip_int_casts(f, st.ops[0]))
+        inst = f'liberasurecode_encode: *fragment_len stored at line {st.line}'
+        if re.match(r'^@get_fragment_size\(', v):
+            r.ok(inst + ' = get_fragment_size(fragment)', func=f.name, loc=st.loc)
+        else:
+            r.fail(inst, func=f.name, sig=f'fragment_len := {v[:60]}', loc=st.loc,
+                   msg=f'*fragment_len is computed as {v} instead of being read back from a written fragment with get_fragment_size: whatever that expression leaves out '
+                       '(the backend metadata size) makes the reported length differ from liberasurecode_get_fragment_size(len) + header')
+    r.require_min(1)
+
 def _same_as_aligned_of_one(P, fmin, fpub):
     """both size queries, followed from their return values down to the instance's k and the element-size call, evaluated on a
     grid: min(k, w) must equal aligned(k, w, data_len = 1); the constant (error) alternatives must coincide"""
@@ -319,4 +342,5 @@ def run(ctx):
 
     rule_roundup(ctx, P)
     rule_fragment_len(ctx, P)
+    rule_encode_reports_len(ctx, P)
     ctx.borrow('c13', ['R13b'], 'size queries on an unknown descriptor must return an error, not dereference the failed look-up')
